@@ -40,6 +40,7 @@ const (
 	verifKindSpin            // busy loop with Gosched, polls ctx.Err
 	verifKindWaiter          // long work (so that it is usually cancelled), small latency
 	verifKindStubborn        // waits for the cancellation, then STAYS ALIVE until the harness lets it go
+	verifKindBlocker         // occupies its slot for `work` (or until the oracle has seen a violation), deaf to ctx
 	verifNumKinds
 )
 
@@ -61,6 +62,26 @@ type verifCfg struct {
 	prio     [][]verifPrioPair
 	// stubborn scenarios: the prioritized goroutines start only after this many stubborn bodies are running
 	prioWaitStub int
+	// per invocation (nil = defaults): the `timeout` argument of InvokeBackgroundTask (0 = 10 minutes) and the
+	// wave (wave-1 invocations are started when every wave-0 invocation has returned)
+	invTimeout []time.Duration
+	invWave    []int
+	// per invocation: call InvokeBackgroundTask only after this many blocker/stubborn bodies are running
+	invWaitStub []int
+}
+
+func (c *verifCfg) timeout(k int) time.Duration {
+	if k < len(c.invTimeout) && c.invTimeout[k] > 0 {
+		return c.invTimeout[k]
+	}
+	return 10 * time.Minute
+}
+
+func (c *verifCfg) wave(k int) int {
+	if k < len(c.invWave) {
+		return c.invWave[k]
+	}
+	return 0
 }
 
 type verifFailure struct{ sig, what string }
@@ -109,7 +130,7 @@ func (sc *verifScenario) fail(sig, what string) {
 	sc.failLocked(sig, what)
 	sc.mu.Unlock()
 	switch sig {
-	case "self-overlap", "over-cap", "alive-at-return", "no-progress":
+	case "self-overlap", "over-cap", "alive-at-return", "no-progress", "manager-panic":
 		// the violation is on record: let the stubborn bodies go so that the scenario can end
 		sc.stubOnce.Do(func() { close(sc.stubRelease) })
 	}
@@ -211,6 +232,15 @@ func (sc *verifScenario) body(k int) func(context.Context) {
 		case verifKindInstant:
 		case verifKindDeaf:
 			time.Sleep(b.work)
+		case verifKindBlocker:
+			// Holds its slot.  While every slot is held by a blocker no other body may start (entry check above).
+			atomic.AddInt64(&sc.stubEntered, 1)
+			t := time.NewTimer(b.work)
+			select {
+			case <-sc.stubRelease:
+			case <-t.C:
+			}
+			t.Stop()
 		case verifKindStubborn:
 			atomic.AddInt64(&sc.stubEntered, 1)
 			tick := time.NewTicker(time.Millisecond)
@@ -290,7 +320,7 @@ func (sc *verifScenario) body(k int) func(context.Context) {
 			}
 			t.Stop()
 		}
-		if err := ctx.Err(); err == context.DeadlineExceeded {
+		if err := ctx.Err(); err == context.DeadlineExceeded && sc.cfg.timeout(k) >= 10*time.Minute {
 			sc.fail("harness-timeout", "context deadline of the harness exceeded (machine too slow?)")
 		}
 	}
@@ -376,13 +406,39 @@ func verifExec(cfg verifCfg) (*verifScenario, bool) {
 			}
 		}(pairs)
 	}
+	var wgW0 sync.WaitGroup
+	wave0Done := make(chan struct{})
+	for k := 0; k < n; k++ {
+		if cfg.wave(k) == 0 {
+			wgW0.Add(1)
+		}
+	}
+	go func() { wgW0.Wait(); close(wave0Done) }()
 	for k := 0; k < n; k++ {
 		wgI.Add(1)
 		go func(k int) {
 			defer wgI.Done()
+			if cfg.wave(k) == 0 {
+				defer wgW0.Done()
+			}
+			// a panic of the manager (e.g. "semaphore: released more than held") is a finding, not a harness crash
+			defer func() {
+				if r := recover(); r != nil {
+					sc.fail("manager-panic", fmt.Sprintf("invocation %d: InvokeBackgroundTask panicked: %v", k, r))
+				}
+			}()
 			<-start
+			if cfg.wave(k) != 0 {
+				<-wave0Done
+			}
+			if k < len(cfg.invWaitStub) && cfg.invWaitStub[k] > 0 {
+				deadline := time.Now().Add(20 * time.Second)
+				for atomic.LoadInt64(&sc.stubEntered) < int64(cfg.invWaitStub[k]) && time.Now().Before(deadline) {
+					time.Sleep(100 * time.Microsecond)
+				}
+			}
 			verifSleep(cfg.invDelay[k])
-			sc.ts.InvokeBackgroundTask(sc.body(k), 10*time.Minute)
+			sc.ts.InvokeBackgroundTask(sc.body(k), cfg.timeout(k))
 			// ---- oracle: nothing of this invocation is alive once it has returned ----
 			atomic.StoreInt32(&sc.returned[k], 1)
 			if a := atomic.LoadInt64(&sc.aliveInv[k]); a != 0 {
@@ -409,6 +465,14 @@ func verifExec(cfg verifCfg) (*verifScenario, bool) {
 			time.Sleep(200 * time.Microsecond)
 		}
 	}
+	// ---- oracle: without prioritized work nothing is ever cancelled, so every body runs exactly once ----
+	if cont && len(cfg.prio) == 0 {
+		for k := 0; k < n; k++ {
+			if x := atomic.LoadInt64(&sc.execs[k]); x != 1 {
+				sc.fail("body-not-once", fmt.Sprintf("invocation %d: body executed %d times although no prioritized task ever began", k, x))
+			}
+		}
+	}
 	verifScens.Delete(sc.ts)
 	return sc, cont
 }
@@ -420,7 +484,7 @@ func verifEmit(out *verifutil.Out, sc *verifScenario, cont bool) {
 	n := len(cfg.invDelay)
 	sc.mu.Lock()
 	defer sc.mu.Unlock()
-	out.Comment(fmt.Sprintf("scenario %s conc=%d period=%v procs=%d inv=%d prio=%d", cfg.name, cfg.conc, cfg.period, cfg.procs, n, len(cfg.prio)))
+	out.Comment(fmt.Sprintf("scenario %s conc=%d period=%v procs=%d inv=%d prio=%d timeouts=%v", cfg.name, cfg.conc, cfg.period, cfg.procs, n, len(cfg.prio), cfg.invTimeout))
 	lines := make([]string, 0, len(sc.trace)+2)
 	lines = append(lines, fmt.Sprintf("init %d %d", cfg.conc, n))
 	ncancel, nbackoff, nstart := 0, 0, 0
@@ -476,8 +540,41 @@ func verifEmit(out *verifutil.Out, sc *verifScenario, cont bool) {
 		if len(tr) > 6000 {
 			tr = tr[:6000] + " ..."
 		}
-		out.Fail(f.sig, fmt.Sprintf("%s | scenario %s conc=%d period=%v inv-kinds=%v prio=%v | trace: %s", f.what, cfg.name, cfg.conc, cfg.period, cfg.invKinds, cfg.prio, tr))
+		out.Fail(f.sig, fmt.Sprintf("%s | scenario %s conc=%d period=%v inv-kinds=%v timeouts=%v prio=%v | trace: %s", f.what, cfg.name, cfg.conc, cfg.period, cfg.invKinds, cfg.invTimeout, cfg.prio, tr))
 	}
+}
+
+// verifSlotTimeoutCfgs: every slot is held by a blocking body for >= 10x the (small) timeout of one more
+// invocation.  That invocation must wait for a slot however long it takes: its body may not start while all
+// slots are held, afterwards it runs exactly once; then cap+1 further invocations (wave 1) with blocking bodies
+// show that the semaphore still admits only cap bodies.
+func verifSlotTimeoutCfgs() []verifCfg {
+	ms := time.Millisecond
+	var cfgs []verifCfg
+	for _, c := range []int{1, 2} {
+		to := time.Duration(30+10*c) * ms
+		cfg := verifCfg{name: fmt.Sprintf("slot-timeout-cap%d", c), conc: c, period: 0}
+		add := func(delay time.Duration, b verifBodyCfg, timeout time.Duration, wave int) {
+			waitStub := 0
+			if timeout > 0 {
+				waitStub = c // all slots are held when the invocation with the small timeout is made
+			}
+			cfg.invWaitStub = append(cfg.invWaitStub, waitStub)
+			cfg.invDelay = append(cfg.invDelay, delay)
+			cfg.invKinds = append(cfg.invKinds, []verifBodyCfg{b})
+			cfg.invTimeout = append(cfg.invTimeout, timeout)
+			cfg.invWave = append(cfg.invWave, wave)
+		}
+		for i := 0; i < c; i++ {
+			add(0, verifBodyCfg{verifKindBlocker, 12 * to, 0}, 0, 0)
+		}
+		add(0, verifBodyCfg{verifKindObedient, ms, 0}, to, 0) // the invocation with the small timeout
+		for i := 0; i < c+1; i++ {
+			add(0, verifBodyCfg{verifKindBlocker, 100 * ms, 0}, 0, 1)
+		}
+		cfgs = append(cfgs, cfg)
+	}
+	return cfgs
 }
 
 // verifStubbornCfgs: a body that, once cancelled, stays alive for VERIF_C13_HOLD_MS (or until the oracle
@@ -536,6 +633,12 @@ func verifRandCfg(rnd *verifutil.Rand, i int) verifCfg {
 		// the executions after the third are short so that a scenario always ends soon
 		ks = append(ks, verifBodyCfg{kind: verifKindObedient, work: verifUs(rnd, 0, 1000)})
 		cfg.invKinds = append(cfg.invKinds, ks)
+		// sometimes a timeout so small that waiting for a slot / running the body outlasts it
+		to := time.Duration(0)
+		if rnd.Intn(4) == 0 {
+			to = verifUs(rnd, 200, 8000)
+		}
+		cfg.invTimeout = append(cfg.invTimeout, to)
 	}
 	np := rnd.Pick(1, 3, 3, 2)
 	for p := 0; p < np; p++ {
@@ -585,7 +688,7 @@ func TestVerifC13(t *testing.T) {
 	VerifTrace = verifHook
 	defer func() { VerifTrace = nil }()
 	// the stubborn-body scenarios run in parallel (each holds for VERIF_C13_HOLD_MS on correct code)
-	stubs := verifStubbornCfgs()
+	stubs := append(verifStubbornCfgs(), verifSlotTimeoutCfgs()...)
 	res := make([]*verifScenario, len(stubs))
 	conts := make([]bool, len(stubs))
 	var wg sync.WaitGroup
